@@ -18,8 +18,9 @@ REPO = os.environ.get("QVC_REPO", "/repo")
 
 
 class Obl:
-    def __init__(self, name, hyps, goal, level, instance, info, replay, timeout=None):
+    def __init__(self, name, hyps, goal, level, instance, info, replay, timeout=None, implied_by=None):
         self.timeout = timeout
+        self.implied_by = implied_by
         self.name, self.hyps, self.goal, self.level = name, hyps, goal, level
         self.instance, self.info, self.replay = instance, info or {}, replay
         self.result = None
@@ -86,9 +87,11 @@ class Run:
     def assume(self, *names):
         self.trusted.update(names)
 
-    def add(self, name, hyps, goal, level="property", instance=None, info=None, replay=None, timeout=None):
-        """level: 'property' (refutation = violation), 'helper' (contract drift), 'side' (undecided if refuted)."""
-        self.obls.append(Obl(name, list(hyps), goal, level, instance or {}, info, replay, timeout))
+    def add(self, name, hyps, goal, level="property", instance=None, info=None, replay=None, timeout=None, implied_by=None):
+        """level: 'property' (refutation = violation), 'helper' (contract drift), 'side' (undecided if refuted).
+        implied_by: names of other obligations that together entail this one (a documented decomposition): if the
+        solvers leave this one undecided but discharge all of those, it counts as discharged 'by decomposition'."""
+        self.obls.append(Obl(name, list(hyps), goal, level, instance or {}, info, replay, timeout, implied_by))
 
     def add_path_obligations(self, results, prefix, instance=None, level="side", kinds=("assert", "side", "torch-pre", "internal")):
         """Internal obligations met while executing (asserts, divisor-positive, broadcast-compatibility, ...)."""
@@ -132,6 +135,12 @@ class Run:
         results = solve.discharge([(o.name, o.hyps, o.goal, o.timeout or self.timeout) for o in self.obls], timeout_s=self.timeout)
         for o, r in zip(self.obls, results):
             o.result = r
+        byname = {o.name: o for o in self.obls}
+        for o in self.obls:
+            if o.result["verdict"] == "undecided" and o.implied_by:
+                parts = [byname.get(n) for n in o.implied_by]
+                if all(p is not None and p.result["verdict"] == "discharged" for p in parts):
+                    o.result = dict(o.result, verdict="discharged", backend="decomposition")
         by_backend, tsum, tmax = {}, 0.0, 0.0
         for o in self.obls:
             r = o.result
